@@ -746,6 +746,67 @@ def check_fit(ctx, py, im, mo, site):
                           'coefficients are accumulated on the previous ones and the previous bounds are kept'
                           % (fl(vd(psi2)[0]) if rc2 == 0 else 'rc %d' % rc2, float(psi[0]), fl(vd(bnd2)[0]), fl(vd(bnd2)[1]), fl(vd(bnd)[0]), fl(vd(bnd)[1]))))
 
+# ----------------------------------------------------------------------------- kind 10: Hermite factors selected by ranks
+def gen_ranks(ctx, rng, quick):
+    nb = rng.choice([3, 5, 8, 12, 20])
+    style = rng.choice(['increasing', 'permuted', 'permuted', 'decreasing', 'repeated', 'single-high', 'with-rank-0'])
+    k = rng.randint(1, min(5, nb))
+    base = rng.sample(range(1, nb + 1), k)
+    if style == 'increasing': ifacs = sorted(base)
+    elif style == 'decreasing': ifacs = sorted(base, reverse=True)
+    elif style == 'repeated': ifacs = base + [rng.choice(base) for _ in range(2)]; rng.shuffle(ifacs)
+    elif style == 'single-high': ifacs = [nb]
+    elif style == 'with-rank-0': ifacs = base + [0]; rng.shuffle(ifacs)
+    else: ifacs = base[:]; rng.shuffle(ifacs)
+    y = Fraction(rng.randint(-256, 256), 64); r = rng.choice([1, 1, Fraction(1, 2), Fraction(3, 4)])
+    data = [Fraction(rng.randint(-192, 192), 64) if rng.random() > .15 else None for _ in range(6)]
+    sel = [int(rng.random() < .8) for _ in range(6)] if rng.random() < .4 else []
+    ctx.dist('ranks_' + style)
+    return {'nb': nb, 'ifacs': ifacs, 'y': y, 'r': r, 'data': data, 'sel': sel}, [10, nb, dy(y), dy(r), ifacs, [dy(x) for x in data], sel]
+
+def ranks_model_case(py, im):
+    pts = [[dy(py['y']), dy(py['r'])], [dy(py['y']), dy(1)]] + [[dy(x), dy(1)] for x in py['data'] if x is not None]
+    return [10, pts, py['ifacs'], [dy(math.sqrt(k)) for k in range(max(py['ifacs']) + 2)]]
+
+def check_ranks(ctx, py, im, mo, site):
+    ifacs, nb, data, sel = py['ifacs'], py['nb'], py['data'], py['sel']
+    direct, z2f, rc1, n1, cols1, rc2, n2, cols2 = im
+    def cmp(what, impl, model):
+        impl = vd(impl)
+        if len(impl) != len(ifacs): site.spec.append(('hermite-by-ranks:size', '%s returns %d values for %d ranks' % (what, len(impl), len(ifacs)))); return False
+        run = max([abs(float(unq(x))) for x in model] + [1.0])
+        for k in range(len(ifacs)):
+            m = float(unq(model[k]))
+            if impl[k] is None or abs(float(impl[k]) - m) > 1e-12 * (max(ifacs) + 2) * (abs(m) + run):
+                site.spec.append(('hermite-by-ranks:%s' % what.split('(')[0], '%s, ranks %s: factor %d (rank %d) = %s, r^n H_n(y) = %.15g whatever the order of the list'
+                                  % (what, ifacs, k, ifacs[k], fl(impl[k]), m)))
+                return False
+        return True
+    if not cmp('hermitePolynomials(y=%s, r=%s, ifacs)' % (float(py['y']), float(py['r'])), direct, mo[0]): return
+    if not cmp('AnamHermite::z2factor(%s, ifacs)' % float(py['y']), z2f, mo[1]): return
+    defined = [i for i, x in enumerate(data) if x is not None]
+    valid = all(1 <= k <= nb for k in ifacs)
+    # Db level: the ranks must lie in [1, number of polynomials]
+    if not valid:
+        if rc1 == 0: site.spec.append(('rawToFactorByRanks:invalid-rank-accepted', 'ranks %s accepted with %d polynomials' % (ifacs, nb)))
+    else:
+        if rc1 != 0 or n1 != len(ifacs): site.spec.append(('rawToFactorByRanks:fails', 'returns %d, %d new variables for ranks %s' % (rc1, n1, ifacs))); return
+        for j, i in enumerate(defined):
+            active = not sel or sel[i]
+            got = [undy(cols1[k][i]) for k in range(len(ifacs))]
+            if not active: continue
+            if not cmp('rawToFactorByRanks(sample %d, z=%s)' % (i, float(data[i])), [cols1[k][i] for k in range(len(ifacs))], mo[2 + j]): return
+    nf = len(ifacs)
+    if nf <= nb:
+        if rc2 != 0 or n2 != nf: site.spec.append(('rawToFactor:fails', 'rawToFactor(db, %d) returns %d, %d new variables' % (nf, rc2, n2))); return
+        # ranks 1..nf: reference = by-ranks model values for the sorted list, recomputed here from the direct call on the same ranks is not
+        # available: compare with rawToFactorByRanks when the list is 1..nf, else only the first factor H_1(z) = -z
+        for i in defined:
+            if sel and not sel[i]: continue
+            v = undy(cols2[0][i])
+            if v is None or abs(float(v) + float(data[i])) > 1e-14 * (1 + abs(float(data[i]))):
+                site.spec.append(('rawToFactor:first-factor', 'sample %d: z = %s, factor 1 = %s (H_1(z) = -z)' % (i, float(data[i]), fl(v)))); return
+
 # ----------------------------------------------------------------------------- kind 9: discrete anamorphoses (no model: exact references computed here)
 def gen_discrete(ctx, rng, quick):
     which = rng.randint(0, 1)
@@ -813,7 +874,7 @@ def run(ctx):
         print('ERROR: model runner or harness does not build'); sys.exit(3)
     rng = ctx.rng
     gens = [(gen_pca, 120 if quick else 1500), (gen_hermite, 120 if quick else 1500), (gen_anam, 40 if quick else 400),
-            (gen_ns, 80 if quick else 1000), (gen_emp, 50 if quick else 600), (gen_rot, 60 if quick else 600), (gen_fit, 40 if quick else 500)]
+            (gen_ns, 80 if quick else 1000), (gen_emp, 50 if quick else 600), (gen_rot, 60 if quick else 600), (gen_fit, 40 if quick else 500), (gen_ranks, 60 if quick else 600)]
     pys = []; pys_asan = []
     for line in load_corpus(ctx):
         py = py_from_case(line); py['corpus'] = True
@@ -966,6 +1027,7 @@ def py_from_case(c):
     elif k == 4: py.update({'data': [ud(x) for x in c[1]], 'yq': [ud(x) for x in c[2]], 'zq': [ud(x) for x in c[3]]})
     elif k == 5: py.update({'ndim': c[1], 'mode': c[2], 'vecs': [[ud(x) for x in v] for v in c[4]]})
     elif k == 6: py.update({'nb': len(c[3]), 'y': ud(c[1]), 'psi': [ud(x) for x in c[3]], 'asan': True})
+    elif k == 10: py.update({'nb': c[1], 'y': ud(c[2]), 'r': ud(c[3]), 'ifacs': c[4], 'data': [ud(x) for x in c[5]], 'sel': c[6]})
     elif k == 9: py.update({'which': c[1], 'data': [ud(x) for x in c[2]], 'zc': [ud(x) for x in c[3]], 'asan': True})
     elif k == 8: py.update({'nb': c[1], 'data': [ud(x) for x in c[2]]})
     elif k == 7: py.update({'which': c[1], 'nb': c[2], 'data': [ud(x) for x in c[3]], 'asan': True})
@@ -976,10 +1038,10 @@ def load_corpus(ctx):
     if not os.path.exists(p): return []
     return [sx_parse(l) for l in open(p) if l.strip() and not l.startswith('#')]
 
-KIND_NAME = {9: 'AnamDiscrete', 8: 'fitFromArray', 7: 'degenerate-fit', 0: 'PCA', 1: 'hermitePolynomials', 2: 'AnamHermite', 3: 'normalScore', 4: 'AnamEmpirical', 5: 'Rotation', 6: 'hermiteCondExpElement'}
+KIND_NAME = {10: 'hermite-by-ranks', 9: 'AnamDiscrete', 8: 'fitFromArray', 7: 'degenerate-fit', 0: 'PCA', 1: 'hermitePolynomials', 2: 'AnamHermite', 3: 'normalScore', 4: 'AnamEmpirical', 5: 'Rotation', 6: 'hermiteCondExpElement'}
 MODEL_CASE = {0: lambda py, im: pca_model_case_any(py, im), 1: hermite_model_case, 2: anam_model_case,
-              3: lambda py, im: py['case'][:3], 4: emp_model_case, 5: rot_model_case, 6: condexp_model_case, 8: fit_model_case}
-CHECK = {0: check_pca, 1: check_hermite, 2: check_anam, 3: check_ns, 4: check_emp, 5: check_rot, 6: check_condexp, 8: check_fit}
+              3: lambda py, im: py['case'][:3], 4: emp_model_case, 5: rot_model_case, 6: condexp_model_case, 8: fit_model_case, 10: ranks_model_case}
+CHECK = {0: check_pca, 1: check_hermite, 2: check_anam, 3: check_ns, 4: check_emp, 5: check_rot, 6: check_condexp, 8: check_fit, 10: check_ranks}
 
 def pca_model_case_any(py, im):
     if im[0] != 0:
